@@ -121,6 +121,10 @@ def inv_kpoints(w, k, base):
 def inv_occ(w, o, base):
     def prep(c):
         c.fields["is_filled"] = False
+        # the reference is what fill() makes of the INPUTS: derived counters start from the values of a fresh object (dataclass defaults), so a
+        # branch of fill() that leaves one of them untouched (the number of empty states when smearing is on) cannot hide a stale value
+        c.fields["_Nempty"] = 0
+        c.fields["_Nstate"] = 0
 
     conj = []
     for pc, st in built_states(w, o, prep, "fill", base):
